@@ -923,3 +923,104 @@ func RunLargeCommittee(r sim.Src, mons []*sim.Mon, keepLog bool) *sim.World {
 	s.W.Finish()
 	return s.W
 }
+
+// RunResetOverEarlyTraffic (driver B): while the node sits at one height its peers are already one to three heights
+// ahead and changing view there - their change views (and possibly the proposal and responses of the view they are
+// heading for) reach the node early and are kept aside.  Then its application catches up through the ledger and
+// calls Reset once: the kept change views carry the node beyond view 0 *inside* Reset, possibly into a view in which
+// its role differs from the one it had in view 0 (seeded change C05m).  A drawn aftermath follows.
+func RunResetOverEarlyTraffic(r sim.Src, mons []*sim.Mon, keepLog bool) *sim.World {
+	n := 4 + pick(r, "N", 50, 10, 10, 30)
+	self := r.Intn("self", n)
+	tpb := []time.Duration{time.Second, 5 * time.Second, 15 * time.Second}[r.Intn("tpb", 3)]
+	k := 1 + pick(r, "skip", 25, 50, 25)
+	nv := byte(1 + pick(r, "nv", 70, 30))
+	startTip := uint32(r.Intn("tip", 30))
+	switch r.Intn("role", 3) {
+	case 0: // primary of view 0 at the height it lands on
+		for int(startTip+1+uint32(k))%n != self {
+			startTip++
+		}
+	case 1: // primary of the view the early change views ask for
+		for (int(startTip+1+uint32(k))+n*8-int(nv))%n != self {
+			startTip++
+		}
+	}
+	amev := int64(-1)
+	if r.Intn("amev", 3) == 0 {
+		amev = 0
+	}
+	base := make([]int, n)
+	for i := range base {
+		base[i] = i
+	}
+	cfg := sim.Cfg{IDs: n, Validators: func(uint32) []int { return base }, ValDesc: fmt.Sprintf("const[0..%d]", n-1), StartTip: startTip,
+		AMEVHeight: amev, TimePerBlock: tpb, TsIncrement: 1_000_000, Epoch: epoch0}
+	s := sim.NewSolo(cfg, r, self, false, mons, keepLog)
+	nd := s.N
+	nd.Start()
+	H := s.H() + uint32(k)
+	M := n - (n-1)/3
+	others := s.Others()
+	rot := r.Intn("cvrot", len(others))
+	cnt := M - 1 + r.Intn("cvcount", n-M+1) // M-1 .. N-1 early change views
+	noise := func() {
+		switch r.Intn("noise", 4) {
+		case 0:
+			s.Advance(tpb * time.Duration(1+r.Intn("dt", 30)) / 10)
+		case 1:
+			if nd.Timer.Pending {
+				s.Fire()
+			}
+		case 2:
+			if !nd.D.IsPrimary() && !nd.D.RequestSentOrReceived() && !nd.D.BlockSent() {
+				nd.Receive(s.Proposal(s.V(), s.NextTs(), uint64(7)))
+			}
+		}
+	}
+	for i := 0; i < cnt && i < len(others); i++ {
+		j := others[(i+rot)%len(others)]
+		to := nv
+		if r.Intn("cvhigher", 5) == 0 {
+			to++
+		}
+		nd.Receive(s.At(H, dbft.ChangeViewType, j, 0, &vt.ChangeView{NewView: to, R: dbft.CVTimeout, Ts: uint64(nd.Now().UnixNano())}))
+		if r.Intn("interleave", 4) == 0 {
+			noise()
+		}
+	}
+	if p := (int(H)+n*8-int(nv))%n; p != self && r.Intn("earlyprop", 2) == 0 {
+		// the proposal of the view they are heading for, and some responses to it
+		pr := s.At(H, dbft.PrepareRequestType, p, nv, &vt.PrepareRequest{Ts: nd.TipTs + uint64(k+1)*cfg.TsIncrement, N: 5})
+		nd.Receive(pr)
+		for i := r.Intn("earlyresp", n); i > 0; i-- {
+			if j := others[i%len(others)]; j != p {
+				nd.Receive(s.At(H, dbft.PrepareResponseType, j, nv, &vt.PrepareResponse{Prep: pr.Hash()}))
+			}
+		}
+		s.W.Stat("early_proposal_of_target_view")
+	}
+	for i := r.Intn("noisesteps", 4); i > 0; i-- {
+		noise()
+	}
+	if nd.Crashed || len(s.W.Viols) > 0 {
+		s.W.Finish()
+		return s.W
+	}
+	s.Sync(k)
+	if s.V() > 0 {
+		s.W.Stat("view_entered_inside_reset")
+		if (int(H)%n == self) != nd.D.IsPrimary() {
+			s.W.Stat("role_differs_from_view_0")
+		}
+	}
+	for i := r.Intn("aftermath", 5); i > 0 && !nd.Crashed && len(s.W.Viols) == 0; i-- {
+		noise()
+		if nd.NeedInit && !nd.Crashed {
+			nd.Reset()
+		}
+	}
+	s.W.Stat("reset_over_early_traffic")
+	s.W.Finish()
+	return s.W
+}
